@@ -811,7 +811,7 @@ def rule_H(ctx):
                       break
       except orders.Unsupported as ex:
           raise shape_error('feature API not interpretable: %s' % ex, f0.loc())
-      except (IndexError, KeyError, TypeError, AttributeError, orders.Raised) as ex:
+      except orders.PROGRAM_ERRORS as ex:
           bad = {'table before (name -> column)': {nm: c for c, nm in enumerate(st)}, 'operation': label, 'exception': '%s: %s' % (type(ex).__name__, ex)}
     ctx.check(bad is None, 'C01.H', f0,
               'from each of the 16 reachable name -> column maps, every feature operation implements the model (names listed, one value per name and observation, '
@@ -952,7 +952,7 @@ def rule_J(ctx):
                     break
                 except (ZeroDivisionError, ValueError, OverflowError):
                     continue            # the operator rejects these values (log of a negative, ...): nothing to compare
-                except (IndexError, KeyError, TypeError, AttributeError, orders.Raised) as ex:
+                except orders.PROGRAM_ERRORS as ex:
                     found.setdefault(('operator', 'fails'), (label, {'exception': '%s: %s' % (type(ex).__name__, str(ex)[:160])}))
                     continue
                 n_ops += 1
@@ -1007,7 +1007,7 @@ def rule_J(ctx):
                 t.call('operate', text)
             except orders.Unsupported as ex:
                 raise shape_error('operate(%r) not interpretable: %s' % (text, ex), fo.loc())
-            except (IndexError, KeyError, TypeError, AttributeError, ValueError, ZeroDivisionError, orders.Raised) as ex:
+            except orders.PROGRAM_ERRORS as ex:
                 found.setdefault(('expression', 'fails'), (label, {'exception': '%s: %s' % (type(ex).__name__, str(ex)[:160])}))
                 continue
             n_ex += 1
